@@ -1,0 +1,115 @@
+//go:build verif
+
+// Contracts for package flamego, checked by /verif/govc (DESIGN.md §2.2).
+// This file is comment-only: it cannot change the behaviour of any build.
+
+package flamego
+
+// ---------------------------------------------------------------------------
+// C13 ResponseWriter
+// ---------------------------------------------------------------------------
+
+//@ ghost field sync.Once.fired bool
+//@ ghost field responseWriter.hdr0 int        // status lines the underlying writer had seen when it was wrapped
+//@ ghost field responseWriter.body0 int       // body bytes the underlying writer had accepted when it was wrapped
+//@ ghost field responseWriter.hookCalls int   // hooks run so far
+//@ ghost field responseWriter.hookOrder map[int]int // k-th hook run -> its registration index
+//@ ghost field responseWriter.hdrAtHooks int  // status lines seen by the underlying writer when the hooks finished
+//@ ghost field responseWriter.nHooksRun int   // number of hooks registered when they were run
+
+//@ define hooksNonNil(w *responseWriter) bool = forall k int :: 0 <= k && k < len(w.beforeFuncs) ==> w.beforeFuncs[k] != nil
+
+//@ define rwInv(w *responseWriter) bool = w.ResponseWriter != nil && hooksNonNil(w) &&
+//@     (w.writeHeaderOnce.fired <==> w.status != 0) &&
+//@     w.ResponseWriter.hdrCount - w.hdr0 == ite(w.status != 0, 1, 0) &&
+//@     (w.status != 0 ==> w.ResponseWriter.firstStatus == w.status || w.hdr0 != 0) &&
+//@     (w.status != 0 ==> w.ResponseWriter.bodyAtHdr == w.body0) &&
+//@     w.ResponseWriter.bodyBytes - w.body0 == w.size &&
+//@     (w.status == 0 ==> w.size == 0 && w.hookCalls == 0) &&
+//@     (w.method == "HEAD" ==> w.size == 0) &&
+//@     (w.status != 0 ==> w.hookCalls == w.nHooksRun && w.hdrAtHooks == w.hdr0 &&
+//@          (forall k int :: 0 <= k && k < w.nHooksRun ==> w.hookOrder[k] == w.nHooksRun - 1 - k))
+
+//@ functype BeforeFunc(w)
+//@   modifies nothing
+
+//@ func NewResponseWriter
+//@   props C13
+//@   requires w != nil
+//@   ghost before exit: result.(*responseWriter).hdr0 = w.hdrCount
+//@   ghost before exit: result.(*responseWriter).body0 = w.bodyBytes
+//@   ghost before exit: result.(*responseWriter).hookCalls = 0
+//@   ensures dyn(result) == type(*responseWriter) && fresh(result)
+//@   ensures rwInv(result.(*responseWriter))
+//@   ensures result.(*responseWriter).status == 0 && result.(*responseWriter).size == 0
+//@   ensures result.(*responseWriter).ResponseWriter == w && result.(*responseWriter).method == method
+
+//@ func (*responseWriter).callBefore
+//@   props C13
+//@   requires w.hookCalls == 0 && hooksNonNil(w)
+//@   modifies w.hookCalls, w.hookOrder
+//@   ghost before elem#0: w.hookOrder[w.hookCalls] = i
+//@   ghost before elem#0: w.hookCalls = w.hookCalls + 1
+//@   ensures w.hookCalls == len(w.beforeFuncs)
+//@   ensures forall k int :: 0 <= k && k < len(w.beforeFuncs) ==> w.hookOrder[k] == len(w.beforeFuncs) - 1 - k
+//@   loop 0 invariant -1 <= i && i < len(w.beforeFuncs)
+//@   loop 0 invariant w.hookCalls == len(w.beforeFuncs) - 1 - i
+//@   loop 0 invariant forall k int :: 0 <= k && k < w.hookCalls ==> w.hookOrder[k] == len(w.beforeFuncs) - 1 - k
+//@   loop 0 decreases i + 1
+
+//@ func (*responseWriter).WriteHeader
+//@   props C13
+//@   requires rwInv(w)
+//@   requires 100 <= s && s <= 999
+//@   modifies w.status, w.writeHeaderOnce.fired, w.hookCalls, w.hookOrder, w.hdrAtHooks, w.nHooksRun,
+//@            w.ResponseWriter.hdrCount, w.ResponseWriter.firstStatus, w.ResponseWriter.bodyAtHdr
+//@   ghost after callBefore#0: w.hdrAtHooks = w.ResponseWriter.hdrCount
+//@   ghost after callBefore#0: w.nHooksRun = len(w.beforeFuncs)
+//@   ensures rwInv(w)
+//@   ensures old(w.status) == 0 ==> w.status == s && w.ResponseWriter.hdrCount == old(w.ResponseWriter.hdrCount) + 1
+//@   ensures old(w.status) == 0 ==> w.nHooksRun == len(w.beforeFuncs)
+//@   ensures old(w.status) != 0 ==> w.status == old(w.status) && w.ResponseWriter.hdrCount == old(w.ResponseWriter.hdrCount) && w.hookCalls == old(w.hookCalls)
+
+//@ func (*responseWriter).Write
+//@   props C13
+//@   requires rwInv(w)
+//@   modifies w.status, w.size, w.writeHeaderOnce.fired, w.hookCalls, w.hookOrder, w.hdrAtHooks, w.nHooksRun,
+//@            w.ResponseWriter.hdrCount, w.ResponseWriter.firstStatus, w.ResponseWriter.bodyAtHdr, w.ResponseWriter.bodyBytes
+//@   ensures rwInv(w)
+//@   ensures w.status == ite(old(w.status) == 0, 200, old(w.status))
+//@   ensures w.ResponseWriter.hdrCount == old(w.ResponseWriter.hdrCount) + ite(old(w.status) == 0, 1, 0)
+//@   ensures w.size == old(w.size) + size
+//@   ensures w.ResponseWriter.bodyBytes == old(w.ResponseWriter.bodyBytes) + size
+//@   ensures w.method == "HEAD" ==> size == 0
+//@   ensures 0 <= size && size <= len(b)
+
+//@ func (*responseWriter).Flush
+//@   props C13
+//@   requires rwInv(w)
+//@   modifies w.status, w.writeHeaderOnce.fired, w.hookCalls, w.hookOrder, w.hdrAtHooks, w.nHooksRun,
+//@            w.ResponseWriter.hdrCount, w.ResponseWriter.firstStatus, w.ResponseWriter.bodyAtHdr, w.ResponseWriter.flushes
+//@   ensures rwInv(w)
+//@   ensures w.status == ite(old(w.status) == 0, 200, old(w.status))
+//@   ensures w.ResponseWriter.hdrCount == old(w.ResponseWriter.hdrCount) + ite(old(w.status) == 0, 1, 0)
+//@   ensures w.size == old(w.size)
+
+//@ func (*responseWriter).Status
+//@   props C13
+//@   ensures result == w.status
+
+//@ func (*responseWriter).Written
+//@   props C13
+//@   ensures result == (w.status != 0)
+
+//@ func (*responseWriter).Size
+//@   props C13
+//@   ensures result == w.size
+
+//@ func (*responseWriter).Before
+//@   props C13
+//@   requires rwInv(w) && before != nil
+//@   modifies w.beforeFuncs, w.beforeFuncs[*]
+//@   ensures rwInv(w)
+//@   ensures len(w.beforeFuncs) == len(old(w.beforeFuncs)) + 1
+//@   ensures w.beforeFuncs[len(old(w.beforeFuncs))] == before
+//@   ensures forall k int :: 0 <= k && k < len(old(w.beforeFuncs)) ==> w.beforeFuncs[k] == old(w.beforeFuncs[k])
